@@ -666,3 +666,16 @@ where
         &mut self.owned
     }
 }
+
+/// Verification hook (`--cfg hipstr_verif`).
+#[cfg(hipstr_verif)]
+impl<'borrow, B> HipPath<'borrow, B>
+where
+    B: Backend,
+{
+    /// Returns the underlying byte string.
+    #[must_use]
+    pub const fn verif_bytes(&self) -> &HipByt<'borrow, B> {
+        &self.0 .0
+    }
+}
